@@ -80,14 +80,25 @@ pub fn profile(prop: &str) -> Option<Profile> {
         "C17" => p("C17", &all_deque_ops(), Family::None, 50, 15),
         "C18" => p("C18", &all_deque_ops(), Family::Any, 50, 20),
         "C20" => p("C20", O1, Family::None, 70, 20),
+        // a capacity large enough for size thresholds (e.g. "stage in a Vec when more than 256
+        // bytes have to move") to be crossed with 16-byte elements
+        "C17big" => {
+            let mut q = p("C17big", &[MakeContiguous, Remove, Drain, ExtendFromSlice, Extend, CloneFrom, CloneTo, CmpBufs, CrossCmp, DebugFmt, Swap, SwapRemoveBack, SwapRemoveFront, TruncateFront, TruncateBack, IterMut, Range, Fill, FromIter], Family::None, 80, 10);
+            q.only_n = vec![40];
+            q
+        }
         _ => return None,
     })
 }
 
 /// (N, start r, size s) for every layout with N in DEQUE_NS: 317 entries.
 pub fn layouts() -> Vec<(usize, usize, usize)> {
+    layouts_of(&DEQUE_NS)
+}
+
+pub fn layouts_of(ns: &[usize]) -> Vec<(usize, usize, usize)> {
     let mut v = Vec::new();
-    for &n in DEQUE_NS.iter() {
+    for &n in ns.iter() {
         for r in 0..n.max(1) {
             for s in 0..=n {
                 v.push((n, r, s));
@@ -456,8 +467,7 @@ fn user_kind_for(op: Op, st: &Step, rng: &mut Rng) -> FaultKind {
 pub fn gen_deque(seed: u64, prof: &Profile, run: u64) -> Script {
     let pid = prof.prop.bytes().fold(0u64, |a, b| a * 131 + b as u64);
     let mut rng = Rng::new(mix(&[seed, 1, pid, run]));
-    let lay = layouts();
-    let lays: Vec<(usize, usize, usize)> = if prof.only_n.is_empty() { lay } else { lay.into_iter().filter(|l| prof.only_n.contains(&l.0)).collect() };
+    let lays: Vec<(usize, usize, usize)> = if prof.only_n.is_empty() { layouts() } else { layouts_of(&prof.only_n) };
     let nl = lays.len() as u64;
     let stratum = run % (nl * prof.focus.len() as u64);
     let (n, r, s) = lays[(stratum % nl) as usize];
